@@ -190,6 +190,10 @@ class C04(Prop):
             if case['proto'] == 'loose':
                 for strict in ('v1', 'v2'):
                     so = cc.observe_decode(strict, bytes(case['msg']))
+                    # (ids other than numbers, strings and null exist for the 1.0 class on its own: the loose protocol
+                    # refuses them, as 2.0 does)
+                    if strict == 'v1' and isinstance(so.get('id'), (list, dict)):
+                        continue
                     if so['kind'] in ('resp', 'req', 'notif') and so != obs:
                         return (f'the loose decoder reads this message differently from the {strict} decoder that accepts it: '
                                 f'{str(obs)[:120]} vs {str(so)[:120]}')
